@@ -1,0 +1,9 @@
+//go:build verif
+
+// Contracts for the govc verifier (/verif). Comment-only; compiled only with -tags verif.
+
+package iereader
+
+//@ func NewParser(root)
+//@   requires root != nil
+//@   ensures result != nil && fresh(result)
